@@ -597,15 +597,25 @@ func (c *EvalCtx) localName(name string) (tv, bool) {
 				}
 			}
 		}
-		// (again, now that the phis known only by their name are among the candidates; a variable that the current
-		// loop does not change is the phi of the innermost enclosing loop that does)
+		// (again, now that the phis known only by their name are among the candidates)
 		if c.lc != nil {
-			for l := c.lc.l; l != nil; l = l.Parent {
-				for _, v := range cands {
-					if ph, ok := v.(*ssa.Phi); ok && ph.Block() == l.Header {
-						return tv{c.ex.val(st, v), v.Type()}, true
-					}
+			for _, v := range cands {
+				if ph, ok := v.(*ssa.Phi); ok && ph.Block() == c.lc.l.Header {
+					return tv{c.ex.val(st, v), v.Type()}, true
 				}
+			}
+		}
+		// several constants of one value are one value
+		if k0, ok := cands[0].(*ssa.Const); ok && k0.Value != nil {
+			same := true
+			for _, v := range cands[1:] {
+				k, isC := v.(*ssa.Const)
+				if !isC || k.Value == nil || !constant.Compare(k.Value, token.EQL, k0.Value) {
+					same = false
+				}
+			}
+			if same {
+				return tv{c.ex.val(st, cands[0]), cands[0].Type()}, true
 			}
 		}
 		// a phi that merges (directly or through other phis) all the other candidates is the variable's value after
